@@ -946,6 +946,48 @@ def r07_13(ctx):
                "the digit count compared with MAX_DIGITS still contains the literal's trailing zeros: a literal padded with zeros beyond 768 digits is marked truncated and an exact tie is rounded up instead of to even")
 
 
+def r07_14(ctx):
+    """there is one decimal number parser: text becomes a number in sonic_number (and in core's FromStr for 128-bit
+    integers), nowhere else.  No function of the sonic_rs crate accumulates decimal digits itself (`acc * 10 + (b - b'0')`):
+    a private fast path of that shape has its own overflow, sign, leading-zero and range behaviour"""
+    prog = ctx.prog()
+    def accumulates(f):
+        mul = sub = None
+        for g in prog.with_closures(f):
+            for b, i, s_ in g.assigns():
+                rv = s_["rv"]
+                if rv["k"] == "binop" and rv["op"].startswith("Mul") and 10 in (op_int(rv["a"]), op_int(rv["b"])):
+                    mul = s_.get("ln")
+                if rv["k"] == "binop" and rv["op"].startswith("Sub") and op_int(rv["b"]) == 48:
+                    sub = s_.get("ln")
+                if rv["k"] == "binop" and rv["op"] == "BitAnd" and op_int(rv["b"]) == 15 and (rv["b"].get("ty") == "u8"):
+                    sub = sub or s_.get("ln")
+            for b, t in g.calls():
+                nm = t["callee"].rsplit("::", 1)[-1]
+                if nm in ("wrapping_mul", "checked_mul", "saturating_mul", "overflowing_mul") and "core::num" in t["callee"] and any(op_int(a) == 10 for a in t["args"]):
+                    mul = t["ln"]
+                if nm in ("wrapping_sub", "checked_sub") and "core::num" in t["callee"] and len(t["args"]) > 1 and op_int(t["args"][1]) == 48:
+                    sub = t["ln"]
+                if nm == "to_digit" and "char" in t["callee"]:
+                    sub = sub or t["ln"]
+        return mul if (mul is not None and sub is not None) else None
+    hits = []
+    control = 0
+    for f in prog.fns.values():
+        if f.kind == "Closure":
+            continue
+        ln = accumulates(f)
+        if ln is None:
+            continue
+        if f.crate == "sonic_number":
+            control += 1
+        elif f.crate == "sonic_rs":
+            hits.append((f, ln))
+    ctx.ob("R07.14", "positive-control:sonic_number-accumulates", control >= 2, "sonic-number/src/lib.rs", f"{control} digit-accumulating functions seen in sonic_number (the query recognises the shape)", nontrivial=False)
+    ctx.ob("R07.14", "one-number-parser", not hits, hits[0][0].loc(hits[0][1]) if hits else "", "no function of sonic_rs accumulates decimal digits itself" if not hits else
+           f"{[short(f.id) for f, ln in hits]} accumulate(s) decimal digits outside sonic_number: a second number parser with its own overflow and range behaviour (e.g. 20-digit integers above u64::MAX wrap, i64::MIN as a key overflows the negation)")
+
+
 def r07_s(ctx):
     """shifts, table indices and unsigned differences of the conversion stay in range (interval analysis, shared with C01):
     a wrapped shift or an out-of-range table index yields a wrong float in release builds"""
@@ -975,4 +1017,4 @@ def r07_sx(ctx):
     ctx.violations = [o for o in ctx.obligations if not o["ok"]]
 
 
-RULES = [("R07.1", r07_1), ("R07.3", r07_3), ("R07.4", r07_4), ("R07.5", r07_5), ("R07.6", r07_6), ("R07.6b", r07_6b), ("R07.7", r07_7), ("R07.8", r07_8), ("R07.9", r07_9), ("R07.10", r07_10), ("R07.11", r07_11), ("R07.12", r07_12), ("R07.13", r07_13), ("R07.S", r07_s), ("R07.Sx", r07_sx)]
+RULES = [("R07.1", r07_1), ("R07.3", r07_3), ("R07.4", r07_4), ("R07.5", r07_5), ("R07.6", r07_6), ("R07.6b", r07_6b), ("R07.7", r07_7), ("R07.8", r07_8), ("R07.9", r07_9), ("R07.10", r07_10), ("R07.11", r07_11), ("R07.12", r07_12), ("R07.13", r07_13), ("R07.14", r07_14), ("R07.S", r07_s), ("R07.Sx", r07_sx)]
